@@ -31,6 +31,7 @@ type EsSpec struct {
 	PsChange       bool // one key frame in the middle carries in-band SPS + a NEW PPS; it is in force from there on
 	PartialPS      bool // H.265: some later key frames repeat SPS+PPS in-band without the VPS
 	AscChange      bool // AAC: a second sequence header with another channel configuration / object type mid-stream
+	TinyAudio      bool // Opus / G.711: some frames are a single byte (Opus DTX); they carry no tag and are matched by order
 	LonePS         bool // some non-key frames are preceded by a PPS or an SPS on its own (parameter-set update sent separately)
 }
 
@@ -256,6 +257,9 @@ func BuildEs(r *rand.Rand, inc int, sp EsSpec) *EsStream {
 					es.AscChangeFrame = idx
 				}
 				f.Audio = append(Tag(inc, idx*8), nalFill(r, size-12)...)
+				if sp.TinyAudio && sp.ACodec != "aac" && len(es.Frames) > 20 && r.Intn(6) == 0 {
+					f.Audio = []byte{byte(1 + idx%250)}
+				}
 				es.Frames = append(es.Frames, f)
 				idx++
 			}
